@@ -290,6 +290,7 @@ def run(ctx):
     ctx.rule('R36.3', 'the grouping loop iterates the complete list of parsed findings')
     ctx.rule('R36.2', 'no finding is filtered out between the SAX handler and the index / per-file pages')
     T = Taint(tree)
+    r36_4(ctx, T)
     flows = T.run()
     handler = [n for n in ast.walk(tree) if isinstance(n, ast.ClassDef) and n.name == 'CppCheckHandler']
     if not handler:
@@ -466,3 +467,33 @@ def run(ctx):
             shrink.append(n.lineno)
     ctx.ob('R36.3', 'lists-only-grow', not shrink, 'no statement removes from or replaces a list of finding records' if not shrink else
            'a list of finding records is shrunk or replaced at line(s) %s' % shrink, SCRIPT)
+
+
+def r36_4(ctx, T):
+    """R36.4  no keyed collapse of finding records: itertools.groupby only groups *adjacent* equal keys, so grouping the (unsorted) list of findings and storing the
+    groups in a dict keeps only the last run of each key; likewise a dict / set comprehension keyed by a non-unique field of a finding (line, file, id) keeps one record
+    per key.  Every groupby over finding records must get `sorted(..., key=<same key>)` as its input, and no comprehension may key finding records by such a field
+    without collecting a list per key."""
+    ctx.rule('R36.4', 'finding records are not collapsed by groupby on unsorted input or by dicts keyed on a non-unique field')
+    n = 0
+    for node in ast.walk(T.tree):
+        if isinstance(node, ast.Call) and ((isinstance(node.func, ast.Attribute) and node.func.attr == 'groupby') or (isinstance(node.func, ast.Name) and node.func.id == 'groupby')):
+            n += 1
+            arg = node.args[0] if node.args else None
+            ok = isinstance(arg, ast.Call) and isinstance(arg.func, ast.Name) and arg.func.id == 'sorted'
+            if ok:
+                k1 = next((ast.unparse(k.value) for k in node.keywords if k.arg == 'key'), ast.unparse(node.args[1]) if len(node.args) > 1 else None)
+                k2 = next((ast.unparse(k.value) for k in arg.keywords if k.arg == 'key'), None)
+                ok = k1 == k2
+            ctx.ob('R36.4', 'groupby:%d' % node.lineno, ok, 'groupby gets its input sorted by the grouping key' if ok else
+                   'itertools.groupby at line %d is applied to a list that is not sorted by the grouping key: equal keys that are not adjacent form several groups, and when the '
+                   'groups are stored per key only the last one survives - the other findings lose their entry' % node.lineno, '%s:%d' % (SCRIPT, node.lineno))
+        if isinstance(node, ast.DictComp):
+            # {rec[field]: rec ...} over errors
+            gen = node.generators[0] if node.generators else None
+            if gen is not None and 'error' in ast.unparse(gen.iter) and isinstance(node.key, ast.Subscript) and isinstance(node.value, ast.Name) and \
+                    isinstance(gen.target, ast.Name) and node.value.id == gen.target.id:
+                n += 1
+                ctx.ob('R36.4', 'dictcomp:%d' % node.lineno, False, 'the dict comprehension at line %d keeps one finding per %s' % (node.lineno, ast.unparse(node.key)),
+                       '%s:%d' % (SCRIPT, node.lineno))
+    ctx.ob('R36.4', 'collapse-census', True, '%d grouping constructs over finding records examined' % n, SCRIPT)
